@@ -585,4 +585,183 @@ theorem append_spec (a : Basis K) (ha : WF a) (v : List K) (hv : v.length = a.np
 
 end
 
+/-! ## The constructor dispatch `fromInput` -/
+
+section
+variable {K : Type}
+
+theorem allVec_map (n : Nat) (vs : List (List K)) (h : ∀ v ∈ vs, v.length = n) :
+    allVec n (vs.map Mode.vec) = some vs := by
+  induction vs with
+  | nil => rfl
+  | cons v vs ih =>
+    have hv : v.length = n := h v (by simp)
+    simp [allVec, hv, ih (fun w hw => h w (by simp [hw]))]
+
+theorem allRow_map (n : Nat) (es : List (SCol K)) :
+    allRow n (es.map (Mode.sp 1 n)) = some es := by
+  induction es with
+  | nil => rfl
+  | cons e es ih => simp [allRow, ih]
+
+theorem allRow_mem (n : Nat) (items : List (Mode K)) (es : List (SCol K)) (h : allRow n items = some es) :
+    ∀ e ∈ es, Mode.sp 1 n e ∈ items := by
+  induction items generalizing es with
+  | nil => simp [allRow] at h; subst h; simp
+  | cons a items ih =>
+    cases a with
+    | vec v => simp [allRow] at h
+    | sp nr nc e0 =>
+      simp only [allRow] at h
+      split at h
+      · next hc =>
+        obtain ⟨rfl, rfl⟩ := hc
+        cases hr : allRow nc items with
+        | none => simp [hr] at h
+        | some es' =>
+          simp [hr] at h; subst h
+          intro e he
+          simp only [List.mem_cons] at he ⊢
+          rcases he with rfl | he
+          · exact Or.inl rfl
+          · exact Or.inr (ih es' hr e he)
+      · simp at h
+
+theorem allVec_sp (n nr nc : Nat) (e : SCol K) (l l' : List (Mode K)) :
+    allVec n (l ++ .sp nr nc e :: l') = none := by
+  induction l with
+  | nil => rfl
+  | cons a l ih =>
+    cases a with
+    | vec v => simp only [List.cons_append, allVec]; split <;> simp [ih]
+    | sp => rfl
+
+theorem allRow_vec (n : Nat) (v : List K) (l l' : List (Mode K)) :
+    allRow n (l ++ .vec v :: l') = none := by
+  induction l with
+  | nil => rfl
+  | cons a l ih =>
+    cases a with
+    | sp nr nc e => simp only [List.cons_append, allRow]; split <;> simp [ih]
+    | vec => rfl
+end
+
+section
+variable {K : Type} [AddCommMonoid K]
+
+theorem colEntry_map_const (l : SCol K) (i' i : Nat) :
+    colEntry (l.map fun p => (i', p.2)) i = if i' = i then (l.map (·.2)).sum else 0 := by
+  induction l with
+  | nil => simp [colEntry]
+  | cons p l ih =>
+    rw [List.map_cons, colEntry_cons, ih]
+    by_cases h : i' = i <;> simp [h]
+
+theorem colEntry_flatMap_range (N : Nat) (F : Nat → SCol K) (i : Nat) :
+    colEntry ((List.range N).flatMap fun i' => (F i').map fun p => (i', p.2)) i =
+      if i < N then ((F i).map (·.2)).sum else 0 := by
+  induction N with
+  | zero => simp [colEntry]
+  | succ N ih =>
+    rw [List.range_succ, List.flatMap_append, colEntry_append, ih]
+    simp only [List.flatMap_cons, List.flatMap_nil, List.append_nil]
+    rw [colEntry_map_const]
+    by_cases h1 : i < N
+    · have : N ≠ i := by omega
+      have h2 : i < N + 1 := by omega
+      simp [h1, h2, this]
+    · by_cases h2 : N = i
+      · subst h2; simp
+      · have : ¬ i < N + 1 := by omega
+        simp [h1, h2, this]
+
+/-- entry `(i, j)` of the CSC conversion of a CSR matrix given by its stored rows -/
+theorem ent_transposeRows (n m : Nat) (rows : List (SCol K)) (i j : Nat) (hi : i < rows.length) (hj : j < m) :
+    ent (.sparse n m (transposeRows m rows)) i j = colEntry (rows.getD i []) j := by
+  simp only [ent, transposeRows]
+  rw [getD_map_range _ _ _ _ hj]
+  rw [colEntry_flatMap_range rows.length (fun i' => (rows.getD i' []).filter fun p => p.1 == j) i]
+  simp [hi, colEntry]
+
+/-- entry `(i, j)` of a COO matrix: the sum of the values stored for that cell -/
+def cooEntry (row col : List Nat) (data : List K) (i j : Nat) : K :=
+  (((col.zip (row.zip data)).filter fun t => t.1 == j && t.2.1 == i).map (·.2.2)).sum
+
+theorem ent_cooCols (n m : Nat) (row col : List Nat) (data : List K) (i j : Nat) (hj : j < m) :
+    ent (.sparse n m (cooCols m row col data)) i j = cooEntry row col data i j := by
+  simp only [ent, cooCols, cooEntry]
+  rw [getD_map_range _ _ _ _ hj]
+  unfold colEntry
+  rw [List.filter_map, List.map_map, List.filter_filter]
+  congr 1
+  congr 1
+  apply List.filter_congr
+  intro t _
+  simp [Bool.and_comm]
+
+theorem WF_transposeRows (m : Nat) (rows : List (SCol K)) :
+    WF (.sparse rows.length m (transposeRows m rows)) := by
+  refine ⟨by simp [transposeRows], ?_⟩
+  intro c hc p hp
+  simp only [transposeRows, List.mem_map, List.mem_range] at hc
+  obtain ⟨j, _, rfl⟩ := hc
+  simp only [List.mem_flatMap, List.mem_range, List.mem_map] at hp
+  obtain ⟨i, hi, q, _, rfl⟩ := hp
+  exact hi
+
+theorem WF_cooCols (n m : Nat) (row col : List Nat) (data : List K) (h : ∀ r ∈ row, r < n) :
+    WF (.sparse n m (cooCols m row col data)) := by
+  refine ⟨by simp [cooCols], ?_⟩
+  intro c hc p hp
+  simp only [cooCols, List.mem_map, List.mem_range] at hc
+  obtain ⟨j, _, rfl⟩ := hc
+  simp only [List.mem_map, List.mem_filter] at hp
+  obtain ⟨t, ⟨ht, _⟩, rfl⟩ := hp
+  have h1 := (List.of_mem_zip ht).2
+  have h2 := (List.of_mem_zip (a := t.2.1) (b := t.2.2) h1).1
+  exact h _ h2
+
+/-- **Valid inputs give well-formed bases**: the check the driver performs on every `new`
+request (`Input.valid`) implies the hypothesis `WF` of the basis theorems for whatever
+`fromInput` builds. -/
+theorem fromInput_WF_aux (inp : Input K) (hv : inp.valid = true) (b : Basis K)
+    (hb : fromInput inp = some b) : WF b := by
+  match inp with
+  | .ndarray n m rows =>
+    simp only [fromInput, Option.some.injEq] at hb; subst hb
+    simp only [Input.valid, Bool.and_eq_true, beq_iff_eq, List.all_eq_true] at hv
+    exact ⟨hv.1, hv.2⟩
+  | .spmat .csc n m p q d =>
+    simp only [fromInput, Option.some.injEq] at hb; subst hb
+    simp only [Input.valid, Bool.and_eq_true, beq_iff_eq, List.all_eq_true, decide_eq_true_eq] at hv
+    exact WF_fromCSC n m p q d hv.1.2
+  | .spmat .csr n m p q d =>
+    simp only [fromInput, Option.some.injEq] at hb; subst hb
+    have := WF_transposeRows m (splitCSC n p q d)
+    simpa [splitCSC] using this
+  | .spmat .coo n m p q d =>
+    simp only [fromInput, Option.some.injEq] at hb; subst hb
+    simp only [Input.valid, Bool.and_eq_true, beq_iff_eq, List.all_eq_true, decide_eq_true_eq] at hv
+    exact WF_cooCols n m p q d hv.1.2
+  | .seq _ [] => simp [fromInput] at hb
+  | .seq _ (.vec v :: rest) =>
+    simp only [fromInput] at hb
+    cases h : allVec v.length (.vec v :: rest) with
+    | none => simp [h] at hb
+    | some vs => simp [h] at hb; subst hb; exact WF_fromFields _ _
+  | .seq _ (.sp nr nc e :: rest) =>
+    simp only [fromInput] at hb
+    cases h : allRow nc (.sp nr nc e :: rest) with
+    | none => simp [h] at hb
+    | some es =>
+      simp [h] at hb; subst hb
+      apply WF_fromSparseRows
+      intro c hc q hq
+      have hmem := allRow_mem nc _ es h c hc
+      simp only [Input.valid, List.all_eq_true] at hv
+      have := hv _ hmem
+      simp only [Mode.valid, List.all_eq_true, decide_eq_true_eq] at this
+      exact this q hq
+end
+
 end HcipyVerif.ModeBasis
